@@ -186,46 +186,8 @@ def check(ck):
                "clear() drains items without marking each of them done (Queue.join would block forever)", q.loc(fclear, fclear.node))
 
     # ---- C09.3 faithful outcome -------------------------------------------------------------------------------
-    fex = prog.func(TP, "FutureResult.execute")
-    g = cfg_of(fex)
-    mcalls = [(n, c) for n in g.live_nodes() for c in node_calls(n) if isinstance(c.func, ast.Name) and c.func.id == "method"]
-    ck.require(len(mcalls) == 1, "C09.3", "%s: one call of method" % q.fn(fex), "one call site", "execute has %d call sites of the task" % len(mcalls), q.loc(fex, fex.node))
-    for (n, c) in mcalls:
-        star = [a for a in c.args if isinstance(a, ast.Starred)]
-        dstar = [k for k in c.keywords if k.arg is None]
-        okk = len(star) == 1 and len(c.args) == 1 and len(dstar) == 1 and len(c.keywords) == 1
-        if okk:
-            ta = prov.alts(prov.origin(g, n, star[0].value))
-            tk = prov.alts(prov.origin(g, n, dstar[0].value))
-            okk = ("param", "args") in ta and ("param", "kwargs") in tk
-        ck.require(okk, "C09.3", "%s: `%s`" % (q.fn(fex), dump(c)), "method(*args, **kwargs)", "the task is invoked as `%s`" % dump(c), q.loc(fex, n))
-
-    def on2(node, facts, data):
-        if any(node.id == n.id for (n, _c) in mcalls):
-            data = min(data + 1, 3)
-        return [(facts, data)]
-    ex2 = Explorer(g, on_node=on2, init_data=0)
-    for st in ex2.terminal:
-        nid, facts, cnt = st
-        ck.require(cnt == 1 or (cnt == 0 and nid == g.raise_exit.id), "C09.3", "%s: exit after %d invocation(s)" % (q.fn(fex), cnt),
-                   "exactly one invocation", "execute finishes after %d invocations of the task" % cnt, q.loc(fex, fex.node), ex2.describe_path(st))
-    sets = [(n, c) for n in g.live_nodes() for c in node_calls(n) if dump(c.func) == "self._done_event.set"]
-    rexc = [(n, c) for n in g.live_nodes() for c in node_calls(n) if dump(c.func) == "self._done_event.raise_exception"]
-    ck.require(len(sets) == 1 and len(rexc) == 1, "C09.3", "%s: outcome stored on both branches" % q.fn(fex), "set(result) / raise_exception(ex)",
-               "execute does not store the outcome on both the normal and the exceptional branch", q.loc(fex, fex.node))
-    for (n, c) in sets:
-        t = prov.origin(g, n, c.args[0]) if c.args else None
-        okk = t is not None and t[0] == "call" and t[1] == ("param", "method")
-        ck.require(okk, "C09.3", "%s: `%s`" % (q.fn(fex), dump(c)), "stores the task's return value itself",
-                   "the stored result is %s, not the very object the task returned" % (prov.show(t) if t else "nothing"), q.loc(fex, n))
-    for (n, c) in rexc:
-        t = prov.origin(g, n, c.args[0]) if c.args else None
-        ck.require(t is not None and t[0] == "exc", "C09.3", "%s: `%s`" % (q.fn(fex), dump(c)), "stores the caught exception object",
-                   "the stored exception is %s, not the caught exception object" % (prov.show(t) if t else "nothing"), q.loc(fex, n))
-        hs = [h for h in g.live_nodes() if h.kind == "handler" and any(sub is c for st_ in h.ast.body for sub in ast.walk(st_))]
-        rer = hs and any(isinstance(st_, ast.Raise) and st_.exc is None for st_ in hs[0].ast.body)
-        ck.require(bool(rer), "C09.3", "%s: exception re-raised" % q.fn(fex), "bare raise in the handler",
-                   "the task's exception is swallowed by execute (the worker cannot log it; callers see no failure)", q.loc(fex, n))
+    from rules import common as _cm0
+    _cm0.check_execute_outcome(ck, "C09.3")
     fres = prog.func(TP, "FutureResult.result")
     gr = cfg_of(fres)
     dr = dominators(gr)
